@@ -216,3 +216,79 @@ SCENARIOS.append(Scenario("C01.eager.eval_function", s_eval_function,
                            ("onnxscript/_internal/evaluator.py", "_adapt_to_eager_mode.adapt")],
                           kind="bounded", bound="one positional and one keyword input over 7 value kinds, one positional and one keyword attribute",
                           trusted=["param_manipulation.tag_arguments_with_signature pairs each argument with its parameter (not under contract)"]))
+
+
+class Tok:
+    def __init__(self, name):
+        self.name = name
+
+    def __repr__(self):
+        return f"<{self.name}>"
+
+
+def s_signature_defaults(ctx):
+    """_translate_function_signature_common: every attribute parameter is recorded with PYTHON's default for that parameter
+    (ast.arguments.defaults holds the defaults of the LAST len(defaults) positional parameters, in order) - eager mode calls
+    the Python function, so a FunctionProto whose attribute defaults differ computes something else when the attribute is
+    omitted.  Tensor parameters become graph inputs in signature order."""
+    import z3
+    import onnx_ir as ir
+    from onnxscript._internal import converter as conv
+    from onnxscript._internal import type_annotation as ta
+    from onnxscript.ir import _schemas
+    from .c01_converter import FnStub
+    I = Interp(ctx, models=CM.converter_models())
+    self = CM.new_converter(I)
+    C = CM._conv_cls()
+    fnstub = FnStub("f")
+    params = []
+    fnstub.append_parameter = lambda p: params.append(p)
+    fnstub.append_parameter._pyvc_native = True
+    self.fields["_current_fn"] = fnstub
+    n = ctx.choose(4, "number of parameters")
+    k = ctx.choose(n + 1, "number of defaults")
+    kinds = [["attribute", "tensor"][ctx.choose(2, f"parameter {i} is")] for i in range(n)]
+    annos = [Tok(f"annotation{i}") for i in range(n)]
+    dexprs = [Tok(f"default_expr{j}") for j in range(k)]
+    I.models[C._get_type_annotation] = lambda interp, slf, a: ("type", annos.index(a))
+    I.models[ta.is_attr_type] = lambda interp, t: kinds[t[1]] == "attribute"
+    I.models[ta.base_type_is_bool] = lambda interp, t: False
+    I.models[_schemas.get_attr_type] = lambda interp, t: ir.AttributeType.FLOAT
+    I.models[C._eval_constant_expr] = lambda interp, slf, e: ("value of", e)
+    I.models[C._generate_unique_name] = lambda interp, slf, cand="tmp": cand
+    I.models[conv.make_value] = lambda interp, name, typeinfo, info: ("tensor parameter", name)
+    bound = {}
+    I.models[C._bind] = lambda interp, slf, name, val: bound.__setitem__(name, val)
+    made = []
+
+    def m_attr(interp, name, type_, value, ref=None, **kw):
+        a = SObj(ir.Attr, f"attr_{name}")
+        a.fields.update(name=name, type=type_, value=value)
+        made.append(a)
+        return a
+    I.models[ir.Attr] = m_attr
+    args = SObj(ast.arguments, "arguments")
+    arglist = []
+    for i in range(n):
+        a = SObj(ast.arg, f"arg{i}")
+        a.fields.update(arg=f"p{i}", annotation=annos[i], lineno=1, col_offset=0)
+        arglist.append(a)
+    args.fields.update(args=arglist, defaults=dexprs, vararg=None, kwonlyargs=[], kw_defaults=[], kwarg=None)
+    fn = SObj(ast.FunctionDef, "fn")
+    fn.fields.update(args=args, returns=None, name="f", lineno=1, col_offset=0)
+    I.run_closure(I.closure_of(C._translate_function_signature_common), [self, fn], {})
+    ok = len(params) == n
+    ctx.check("C01.converter.signature.one_parameter_per_python_parameter_in_order", ok and all(
+        (p.fields["name"] == f"p{i}" if isinstance(p, SObj) else p == ("tensor parameter", f"p{i}")) for i, p in enumerate(params)), CL)
+    if not ok:
+        return
+    for i, p in enumerate(params):
+        if kinds[i] != "attribute":
+            continue
+        want = ("value of", dexprs[i - (n - k)]) if i >= n - k else None
+        ctx.check("C01.converter.signature.attribute_default_is_the_python_default_of_that_parameter", p.fields["value"] == want,
+                  CL + " — eager execution uses Python's defaults; the FunctionProto must record the same ones")
+
+
+SCENARIOS.append(Scenario("C01.converter.signature.defaults", s_signature_defaults, [(CONV, "Converter._translate_function_signature_common")],
+                          kind="bounded", bound="<= 3 parameters, every split into attribute / tensor parameters, every number of defaults"))
